@@ -32,3 +32,36 @@ Theorem C17_predecessors_exact :
   (In m (predecessors nw ty n) <-> In m (type_nodes nw ty) /\ can_reach nw m n = true).
 Proof. exact predecessors_exact. Qed.
 Print Assumptions C17_predecessors_exact.
+
+(** Loading: for every instance conforming to the documented input format ([valid_instance_b]) *)
+From Coq Require Import Permutation.
+From RS Require Import LoadStmts LoadFacts.
+
+(* loading never panics *)
+Theorem C17_load_total : stmt_load_total.
+Proof. exact load_total. Qed.
+Print Assumptions C17_load_total.
+
+(* one service node per departure segment with the route's vehicle type, origin, destination, distance,
+   departure, arrival = departure + duration, passengers (zero counted as one), seated passengers and formation
+   limit; one node per maintenance slot *)
+Theorem C17_load_nodes : stmt_load_nodes.
+Proof. exact load_nodes. Qed.
+Print Assumptions C17_load_nodes.
+
+(* the loaded network satisfies the hypotheses of the theorems above (so they hold for every loaded network);
+   the depot permutation oracle must not be longer than the location list (it is a permutation of it) *)
+Theorem C17_load_wf :
+  forall i perm nw, valid_instance_b i = true -> perm_ok i perm -> load i perm = Ok nw ->
+    net_wf_b nw = true /\ durations_pos_b nw = true /\ dists_finite_b nw = true.
+Proof. exact load_wf_partial. Qed.
+Print Assumptions C17_load_wf.
+(* (for an over-long permutation the 16-bit index bound fails: the unrestricted statement is refuted) *)
+Theorem C17_load_wf_unrestricted_refuted : ~ stmt_load_wf.
+Proof. exact load_wf_refuted. Qed.
+Print Assumptions C17_load_wf_unrestricted_refuted.
+
+(* the overflow depot can always host every vehicle *)
+Theorem C17_load_overflow : stmt_load_overflow.
+Proof. exact load_overflow. Qed.
+Print Assumptions C17_load_overflow.
